@@ -4,6 +4,12 @@
     VERIF_SEED=<s> VERIF_SCALE=8 VERIF_C07_DUMP=/tmp/c07m/run<s>/t bin/check C07 thorough   # several seeds
     python3 harness/internal/verifcheck/c07_mkfloors.py '/tmp/c07m/run*/t.*.json' > harness/internal/verifcheck/c07_floors_test.go
 
+A new anchor is measured alone and its records are added to the input set:
+    VERIF_SEED=<s> VERIF_SCALE=0.002 VERIF_C07_ANCHORS=26 VERIF_C07_ANCHOR_ONLY=<name> VERIF_C07_DUMP=/tmp/c07m/<dir>/t bin/check C07 thorough
+(16 shards x 26 = 416 seeds; keep the records with case.anchor == <name>). When the generator's vocabulary grows (e.g. the
+del80 / del90 phases), campaigns run with the new generator are ADDED to the input set (first check that they do not
+violate the floors in force: --xval style, function violations()).
+
 Every checkpoint carries its class (c07Class: M / efConstruction / data kind / hardness / [int8] / build path).
 Generated cases: a class gets a floor when it was seen in >= 15 cases and >= 40 checkpoints (>= 40 with an
 eligible self query). floor = min(mean - 10 sd, min - MARGIN) where sd is the sample standard deviation but at least
